@@ -156,6 +156,25 @@ def run(ctx):
         ('conflicts', 1, lambda t: etl.conflicts(t, 'x')), ('duplicates(None)', 1, lambda t: etl.duplicates(t)),
         ('isunique', 1, lambda t: [[etl.isunique(t, 'x'), etl.isunique(t, 'xy')]]), ('duplicates(compound)', 1, lambda t: etl.duplicates(t, ('x', 'xy'))),
     ], 320 if ctx.thorough() else 80)
+    # ---- the partition survives a sort that spills into more than a thousand chunk files
+    for n, bs in (((1100, 1), (2300, 2)) if ctx.thorough() else ((1100, 1),)):
+        rows = [[(rng.choice([1, 2, 3, 'a', None]) if i % 5 else 'once-%d' % i), i] for i in range(n)]
+        T = [['k', 'i']] + rows
+        mult = Counter(r[0] for r in rows)
+        try:
+            dup = [tuple(r) for r in etl.duplicates(T, 'k', buffersize=bs)][1:]
+            uni = [tuple(r) for r in etl.unique(T, 'k', buffersize=bs)][1:]
+            dis = [tuple(r) for r in etl.distinct(T, 'k', count='n', buffersize=bs)][1:]
+            ok = Counter(dup) == Counter(tuple(r) for r in rows if mult[r[0]] > 1) and Counter(uni) == Counter(tuple(r) for r in rows if mult[r[0]] == 1) \
+                and sum(r[-1] for r in dis) == n and len(dis) == len(mult)
+        except Exception as e:   # noqa
+            ok = False
+        ctx.case(('dedup', 'many-chunks', n, bs))
+        ctx.count('many-chunks')
+        if not ok:
+            ctx.spec_fail('duplicates|many-chunks', 'duplicates / unique / distinct over a sort of %d rows in chunks of %d do not partition the rows by key multiplicity' % (n, bs),
+                          {'nrows': n, 'buffersize': bs, 'table': 'rows [key, i]: every fifth key occurs once, the others are drawn from [1, 2, 3, "a", None]'})
+
     util.exotic_key_cases(etl, rng, ctx, 'C10', 200 if ctx.thorough() else 50)
 
 def replay(d):
